@@ -651,6 +651,23 @@ def _rx_finditer(I, pattern, s):
     mode = env.get(key, env.get('*', 'any'))
     if mode == 'none':
         return []
+    if isinstance(mode, dict) and 'count' in mode:
+        # up to `count` matches: increasing, non-overlapping (R1); the same (pattern, string) gives the same matches
+        ck = ('fi_cache', key, I.term(s).get_id() if not isinstance(s, str) else s)
+        if ck in I.p.ghost:
+            return list(I.p.ghost[ck][1])
+        out = []
+        prev_end = 0
+        for j in range(mode['count']):
+            if mode.get('exact') is not True and not I.branch(z3.Bool(I.p.fresh_name(f'fi_{key}_{j}'))):
+                break
+            m = E.fresh_match(I, s, f'{key}_{j}')
+            I.p.assume(I.term(m.start) >= prev_end)
+            prev_end = I.term(m.end)
+            out.append(m)
+        I.p.ghost.setdefault(('env_matches', key), []).extend(out)
+        I.p.ghost[ck] = (I.term(s) if not isinstance(s, str) else None, out)
+        return list(out)
     raise Unsupported(f'finditer({key}) on a symbolic string needs an invariant-level model')
 
 
